@@ -11,6 +11,62 @@ use serde::{Deserialize, Serialize};
 use serde_json::Number;
 use thiserror::Error;
 
+///
+/// value of the text found between the quotes of a string literal:
+/// the grammars accept the JSON escapes \" \\ \/ \b \f \n \r \t \uXXXX, all of them are decoded
+///
+pub fn decode_string_literal(inner: &str) -> String {
+    let mut out = String::with_capacity(inner.len());
+    let mut chars = inner.chars().peekable();
+    let mut pending_high: Option<u32> = None;
+    while let Some(c) = chars.next() {
+        if c != '\\' {
+            if pending_high.take().is_some() {
+                out.push('\u{fffd}');
+            }
+            out.push(c);
+            continue;
+        }
+        let unit = match chars.next() {
+            Some('"') => '"' as u32,
+            Some('\\') => '\\' as u32,
+            Some('/') => '/' as u32,
+            Some('b') => 0x08,
+            Some('f') => 0x0c,
+            Some('n') => 0x0a,
+            Some('r') => 0x0d,
+            Some('t') => 0x09,
+            Some('u') => {
+                let hex: String = chars.by_ref().take(4).collect();
+                u32::from_str_radix(&hex, 16).unwrap_or(0xfffd)
+            }
+            // not produced by the grammars
+            Some(other) => other as u32,
+            None => '\\' as u32,
+        };
+        match (pending_high.take(), unit) {
+            (Some(h), 0xdc00..=0xdfff) => {
+                let cp = 0x10000 + ((h - 0xd800) << 10) + (unit - 0xdc00);
+                out.push(char::from_u32(cp).unwrap_or('\u{fffd}'));
+            }
+            (prev, _) => {
+                if prev.is_some() {
+                    out.push('\u{fffd}');
+                }
+                if (0xd800..=0xdbff).contains(&unit) {
+                    pending_high = Some(unit);
+                } else {
+                    out.push(char::from_u32(unit).unwrap_or('\u{fffd}'));
+                }
+            }
+        }
+    }
+    if pending_high.is_some() {
+        out.push('\u{fffd}');
+    }
+    out
+}
+
 #[derive(Debug, Clone)]
 pub enum FieldValue {
     Variable(String),
